@@ -287,25 +287,24 @@ Proof. exact dollar_at_eof_refused_lemma. Qed.
 (* ---- 10. OptionRecord edit methods (records/option_record.py) as surgery on the root's children ---------------- *)
 (* For all child lists (any trees, any rule ids), keys and values; None = the Python method raises. *)
 
-(* set_option either changes ONE option (the first with that key) in place or inserts [WS; KEY=VALUE] at one position;
-   every other child — other options, comments, newlines, blanks — is untouched and in order. *)
+(* set_option either sets ONE option (the first with that key) in place — an option without a value is first given one
+   (1f66dfa) — or inserts [WS; KEY=VALUE] at one position; every other child — other options, comments, newlines,
+   blanks — is untouched and in order. *)
 Theorem set_option_frame :
   forall (r_option r_KEY r_VALUE r_EQUAL r_WS : positive) (ch : list node) (key v : text) (res : list node),
     set_option r_option r_KEY r_VALUE r_EQUAL r_WS ch key v = Some res ->
-    (exists pre o post, ch = pre ++ o :: post /\ res = pre ++ replace_first (Tok r_VALUE None v) o :: post /\
+    (exists pre o post, ch = pre ++ o :: post /\ res = pre ++ set_node r_option r_KEY r_VALUE r_EQUAL key v o :: post /\
                         keyed r_option r_KEY key o = true /\ forallb (fun x => negb (keyed r_option r_KEY key x)) pre = true) \/
     (exists pre post, ch = pre ++ post /\
                       res = pre ++ [ws_token r_WS; create_option r_option r_KEY r_VALUE r_EQUAL key (Some v)] ++ post).
 Proof. exact set_option_frame_lemma. Qed.
 
-(* Read back: when the option that is set has a VALUE child (guard g_has_value; see Refuted), it has the new value
-   afterwards and still its key. *)
+(* Read back, at full strength (the guard "the option has a VALUE child" is gone): whenever an option with that key
+   exists, the first one has the new value and still its key afterwards. *)
 Theorem set_option_readback :
-  forall (r_option r_KEY r_VALUE : positive) (ch : list node) (key v : text) (r : list node),
+  forall (r_option r_KEY r_VALUE r_EQUAL : positive) (ch : list node) (key v : text) (r : list node),
     r_KEY <> r_VALUE ->
-    set_go r_option r_KEY r_VALUE key v ch = Some (Some r) ->
-    (forall o, find (keyed r_option r_KEY key) ch = Some o ->
-               match o with Tree _ _ cc => has_rule r_VALUE cc = true | Tok _ _ _ => False end) ->
+    set_go r_option r_KEY r_VALUE r_EQUAL key v ch = Some (Some r) ->
     exists pre o' post, r = pre ++ o' :: post /\ forallb (fun x => negb (keyed r_option r_KEY key x)) pre = true /\
                         keyed r_option r_KEY key o' = true /\ get_value r_VALUE o' = Some v.
 Proof. exact set_option_readback_lemma. Qed.
@@ -322,12 +321,12 @@ Proof.
   unfold remove_option in H. eapply remove_go_no_target; [exact H | reflexivity].
 Qed.
 
-(* It does not raise when the first child is neither blank space nor an option with that key (guard; see Refuted). *)
+(* It never raises as long as every option has a KEY — wherever the option stands, also directly behind the record name
+   (the first-child guard is gone, f53bbd9). *)
 Theorem remove_option_total :
-  forall (r_option r_KEY r_WS : positive) (c : node) (tl : list node) (key : text),
-    is_ws_tok r_WS c = false -> is_target r_option r_KEY key c = Some false ->
-    forallb (fun n => match is_target r_option r_KEY key n with Some _ => true | None => false end) tl = true ->
-    exists res, remove_option r_option r_KEY r_WS (c :: tl) key = Some res.
+  forall (r_option r_KEY r_WS : positive) (ch : list node) (key : text),
+    forallb (fun n => match is_target r_option r_KEY key n with Some _ => true | None => false end) ch = true ->
+    exists res, remove_option r_option r_KEY r_WS ch key = Some res.
 Proof. exact remove_option_total_lemma. Qed.
 
 (* replace_option maps over the children: every child that is not an option is the same object at the same position. *)
